@@ -27,12 +27,14 @@ SCHEMA_NAMES = [
 ]
 HOSTILE_SCHEMA_NAMES = ["pet_owner", "HTTPResponse", "foo-bar", "Foo.Bar", "Self", "date", "Enum", "Field"]
 RESERVED_SCHEMA_NAMES = ["List", "Any", "Model", "Optional", "Union", "Dict", "data", "type", "UUID"]  # shadow typing imports / reserved-name suffixing
-PROP_NAMES = ["id", "name", "value", "count", "tags", "createdAt", "created_at", "updated", "userId", "kind", "status",
+PROP_NAMES = ["id", "name", "value", "count", "tags", "createdAt", "created_at", "created_at_2", "updated", "userId", "user_id", "kind", "status",
               "parent", "children", "next", "owner", "label", "price", "active", "notes", "ref", "size", "code"]
 HOSTILE_PROP_NAMES = ["user-id", "class", "from", "type", "data", "items", "self", "1st", "Ünï",
                       "global", "in", "model", "json", "X-Id", "with space", "uuid", "enum", "str", "None"]
 DOTTED_PROP_NAMES = ["a.b", "meta.info"]  # promoted inline array/union names derived from them do not match their module
 SHADOWING_PROP_NAMES = ["field", "dataclass", "date", "datetime", "List", "Any", "Optional", "UUID"]  # rebinding names the model module itself uses in the class body
+COLLISION_CLUSTERS = [["createdAt", "created_at", "created_at_2"], ["userId", "user_id", "user-id", "user_id_2"],
+                      ["addressLine", "address_line", "address_line_2", "address-line-2"], ["X-Id", "x_id", "xId"]]
 PARAM_NAMES = ["limit", "offset", "q", "filter", "sort", "page", "X-Request-Id", "include", "since", "ids", "verbose", "lang"]
 HOSTILE_PARAM_NAMES = ["user-id", "class", "from", "type", "id", "X-Trace-Id", "filter[name]", "page.size", "self", "in"]
 BODY_ARG_PARAM_NAMES = ["body", "files", "form_data"]  # equal to the names the generator gives the request-body argument
@@ -107,6 +109,12 @@ def _promotable(node: dict) -> bool:
     if not isinstance(node, dict) or "$ref" in node:
         return False
     return not (node.get("type") in ("string", "integer", "number", "boolean") and "enum" not in node)
+
+
+def _cls(name: str) -> str:
+    from pyopenapi_gen.core.utils import NameSanitizer
+
+    return NameSanitizer.sanitize_class_name(name)
 
 
 def _ref(name: str) -> dict:
@@ -201,6 +209,18 @@ def _object(draw, g: Gate, names: list[str], depth: int, self_name: str | None, 
         if pn in props:
             continue
         node = _node(draw, g, names, depth, self_name, later)
+        if _promotable(node) and (any(_py(pn) == _py(q) for q in props) or _cls(pn) in {_cls(x) for x in names}):
+            # the synthesised type name would collide with a sibling's / a declared schema's: known findings C03-F03/F04
+            feat = "colliding_props_promotable" if any(_py(pn) == _py(q) for q in props) else "prop_class_equals_schema_name"
+            if feat in g.exclude:
+                g.excluded[feat] += 1
+                node = {"type": "string"}
+            else:
+                g.used[feat] += 1
+        elif any(_py(pn) == _py(q) for q in props) and any(_promotable(props[q]) for q in props if _py(pn) == _py(q)):
+            if "colliding_props_promotable" in g.exclude:
+                g.excluded["colliding_props_promotable"] += 1
+                continue
         if _reserved_name(pn) and _promotable(node):
             # a promoted inline type would be named after a reserved name (str -> Str_): known finding C01-F14
             if "reserved_prop_inline_type" in g.exclude:
@@ -209,6 +229,14 @@ def _object(draw, g: Gate, names: list[str], depth: int, self_name: str | None, 
             else:
                 g.used["reserved_prop_inline_type"] += 1
         props[pn] = node
+    if g.flag(draw, "colliding_prop_cluster", 1, 8):
+        # keys that derive to the same Python identifier (+ one that equals the de-collision suffix form); scalar-typed,
+        # so no synthesised inline types are involved (those are C03-F03)
+        cluster = draw(st.sampled_from(COLLISION_CLUSTERS))
+        k = draw(st.integers(2, len(cluster)))
+        for pn in draw(st.permutations(cluster))[:k]:
+            if pn not in props and not any(_py(pn) == _py(q) and _promotable(props[q]) for q in props):
+                props[pn] = {"type": draw(st.sampled_from(["string", "integer", "boolean"]))}
     req = [p for p in props if draw(st.booleans())]
     node: dict[str, Any] = {"type": "object", "properties": props}
     if req:
@@ -244,6 +272,14 @@ def _top_schema(draw, g: Gate, name: str, names: list[str], idx: int) -> dict:
         parents = draw(st.lists(st.sampled_from(others), min_size=1, max_size=2, unique=True))
         own = _object(draw, g, names, 1, name, later, max_props=3)
         own.pop("description", None)
+        for pk, pv in list(own.get("properties", {}).items()):
+            if _promotable(pv):
+                # inline type inside an anonymous allOf member is promoted under the bare property name (C03-F05)
+                if "promotable_in_allof_member" in g.exclude:
+                    g.excluded["promotable_in_allof_member"] += 1
+                    own["properties"][pk] = {"type": "string"}
+                else:
+                    g.used["promotable_in_allof_member"] += 1
         return {"allOf": [_ref(p) for p in parents] + [own]}
     if kind in ("union", "disc_union"):
         k = draw(st.sampled_from(["oneOf", "anyOf"]))
@@ -288,6 +324,51 @@ def _finish_discriminators(schemas: dict, g: "Gate | None" = None) -> None:
                 tgt["required"].append("kind")
 
 
+def _unrequire_self_refs(schemas: dict) -> None:
+    """A schema that REQUIRES a direct reference to itself has no finite instance: such a property is made optional."""
+    def fix(node, name):
+        if not isinstance(node, dict):
+            return
+        for k, p in (node.get("properties") or {}).items():
+            if isinstance(p, dict) and p.get("$ref", "").endswith("/" + name) and k in node.get("required", []):
+                node["required"].remove(k)
+        if not node.get("required"):
+            node.pop("required", None)
+        for m in node.get("allOf", []) or []:
+            fix(m, name)
+
+    for name, node in schemas.items():
+        fix(node, name)
+
+
+def _dedupe_allof_keys(schemas: dict) -> None:
+    """allOf has no override semantics: a child re-declaring an inherited key with another type would be contradictory
+    input, so own keys that collide with a parent's (flattened) keys are dropped."""
+    from .refmodel.instances import flatten
+
+    for name, node in schemas.items():
+        if not (isinstance(node, dict) and "allOf" in node):
+            continue
+        inherited: set[str] = set()
+        for m in list(node["allOf"]):
+            if "$ref" in m:
+                f = flatten(m, schemas)
+                if f:
+                    if inherited & set(f["properties"]):
+                        node["allOf"].remove(m)  # two parents declaring the same key differently: contradictory input
+                        continue
+                    inherited |= set(f["properties"])
+        for m in node["allOf"]:
+            if "$ref" not in m and "properties" in m:
+                for k in list(m["properties"]):
+                    if k in inherited:
+                        del m["properties"][k]
+                        if k in m.get("required", []):
+                            m["required"].remove(k)
+                if not m.get("required"):
+                    m.pop("required", None)
+
+
 # ---------------------------------------------------------------------------------------------
 # reference cycles between named schemas
 
@@ -309,12 +390,23 @@ def _refs_in(node: Any, path: tuple = ()) -> list[tuple[tuple, str]]:
     return out
 
 
-def _benign_self_loop(path: tuple) -> bool:
-    """A direct `prop: $ref Self` or `prop: array of $ref Self` of an object schema is in the clean domain."""
-    return (len(path) == 2 and path[0] == "properties") or (len(path) == 3 and path[0] == "properties" and path[2] == "items")
+def _benign_self_loop(path: tuple, name: str = "", strict: frozenset = frozenset()) -> bool:
+    """A direct `prop: $ref Self` or `prop: array of $ref Self` of an object schema is in the clean domain of C01.
+    `strict` names further findings whose triggers are to be treated as non-benign:
+      self_ref_array           array of $ref Self (C03-F01: List["X"] forward reference cannot be structured)
+      renamed_schema_self_ref  any self reference of a schema whose class name differs from its raw name (C03-F02)"""
+    direct = len(path) == 2 and path[0] == "properties"
+    array = len(path) == 3 and path[0] == "properties" and path[2] == "items"
+    if not (direct or array):
+        return False
+    if array and "self_ref_array" in strict:
+        return False
+    if "renamed_schema_self_ref" in strict and name and _cls(name) != name:
+        return False
+    return True
 
 
-def cycle_edges(schemas: dict) -> list[tuple[str, tuple, str]]:
+def cycle_edges(schemas: dict, strict: frozenset = frozenset()) -> list[tuple[str, tuple, str]]:
     """Back edges (schema, path, target) whose removal makes the named-schema reference graph acyclic
     (benign self-loops are kept and not counted)."""
     graph = {n: [(p, t) for p, t in _refs_in(node) if t in schemas] for n, node in schemas.items()}
@@ -325,7 +417,7 @@ def cycle_edges(schemas: dict) -> list[tuple[str, tuple, str]]:
         state[u] = 1
         for p, t in graph[u]:
             if t == u:
-                if not _benign_self_loop(p):
+                if not _benign_self_loop(p, u, strict):
                     back.append((u, p, t))
                 continue
             if state.get(t, 0) == 1:
@@ -344,11 +436,11 @@ def has_cycle(schemas: dict) -> bool:
     return bool(cycle_edges(schemas))
 
 
-def break_cycles(schemas: dict) -> int:
+def break_cycles(schemas: dict, strict: frozenset = frozenset()) -> int:
     """Replaces every back edge by a plain string schema (or drops it from a composition list). Returns #edges cut."""
     n = 0
     for _ in range(50):
-        edges = cycle_edges(schemas)
+        edges = cycle_edges(schemas, strict)
         if not edges:
             break
         u, path, _t = edges[0]
@@ -617,16 +709,27 @@ def specs(draw, gate: Gate | None = None, max_schemas: int = 5, max_ops: int = 4
     for _ in range(n_s):
         n = g.pick(draw, pool, fallback=draw(st.sampled_from(SCHEMA_NAMES)),
                    weights=[3] * len(SCHEMA_NAMES) + [1] * len(HOSTILE_SCHEMA_NAMES) + [1] * len(RESERVED_SCHEMA_NAMES))
-        if n not in names:
-            names.append(n)
+        if n in names:
+            continue
+        if any(_cls(n).lower() == _cls(m).lower() for m in names):
+            # two schema names deriving to one class name: C20(b) owns that namespace question
+            if not g.flag(draw, "colliding_schema_names", 1, 1):
+                continue
+        names.append(n)
     schemas: dict[str, Any] = {}
     for i, n in enumerate(names):
         schemas[n] = _top_schema(draw, g, n, names, i)
     _finish_discriminators(schemas, g)
+    _dedupe_allof_keys(schemas)
+    _unrequire_self_refs(schemas)
     if "schema_cycle" in g.exclude:
-        n_broken = break_cycles(schemas)
-        if n_broken:
+        strict = frozenset(f for f in ("self_ref_array", "renamed_schema_self_ref") if f in g.exclude)
+        n_plain = len(cycle_edges(schemas))
+        n_broken = break_cycles(schemas, strict)
+        if n_plain:
             g.excluded["schema_cycle"] += 1
+        if n_broken > n_plain:
+            g.excluded["self_ref_array_or_renamed_self_ref"] += 1
     elif has_cycle(schemas):
         g.used["schema_cycle"] += 1
 
